@@ -115,7 +115,7 @@ def run(out, tier, seed):
     out.add_model(res)
     counts["exhaustive histories (<=3 operations)"] = n1
     big = os.path.join(wd, "big.ndjson")
-    keep = 12 if tier == "quick" else 2
+    keep = 12 if tier == "quick" else 4
 
     def sample(p):
         return p if zlib.crc32(json.dumps(p["script"], sort_keys=True).encode()) % keep == 0 else None
